@@ -118,8 +118,8 @@ def check_open(rec, sub, pck, ref, desc, path, limit, header_only, maxmins, pars
         bad("time", "%r != %r" % (pck.time, ref.time))
     if pck.limit_level != L:
         bad("limit_level", "%r != %r" % (pck.limit_level, L))
-    if getattr(pck, "max_level", None) != nlev - 1:
-        bad("max_level")
+    if hasattr(pck, "max_level") and pck.max_level != nlev - 1:
+        bad("max_level", "%r != %r" % (pck.max_level, nlev - 1))
     if not arr_eq(pck.geo_low, ref.geo_lo) or not arr_eq(pck.geo_high, ref.geo_hi):
         bad("geometry", "%r %r" % (pck.geo_low, pck.geo_high))
     for lv in range(L + 1):
